@@ -82,6 +82,8 @@ type verifOps struct {
 	add, sub, mul, ceil2, floor2 func(c *verifapd.Context, d, x, y *verifapd.Decimal) (verifapd.Condition, error)
 	ceil, floor, rtiv, rtie func(c *verifapd.Context, d, x *verifapd.Decimal) (verifapd.Condition, error)
 	bdiv, bmod, bquo, brem func(z, x, y *verifapd.BigInt) *verifapd.BigInt
+	bappend func(z *verifapd.BigInt, buf []byte, base int) []byte
+	bbitlen func(z *verifapd.BigInt) int
 }
 
 func verifGrid(o verifOps, emit func(string)) {
@@ -124,6 +126,14 @@ func verifGrid(o verifOps, emit func(string)) {
 		line += " rtiv=" + verifShow(&v1) + verifCond(vc)
 		ec, _ := o.rtie(&ctx, &e1, &x)
 		line += " rtie=" + verifShow(&e1) + verifCond(ec&verifapd.Inexact)
+		if v.ei == 0 {
+			var z verifapd.BigInt
+			verifMISet(&z, verifMIOf(&x.Coeff))
+			if v.neg {
+				verifMISet(&z, verifMINeg(verifMIOf(&x.Coeff)))
+			}
+			line += " digits=" + string(o.bappend(&z, []byte("#"), 10)) + " bitlen=" + verifItoa(o.bbitlen(&z))
+		}
 		emit(line)
 	}
 	for _, a := range binary {
@@ -173,6 +183,7 @@ func verifAPIOps() verifOps {
 		ceil: (*verifapd.Context).Ceil, floor: (*verifapd.Context).Floor,
 		rtiv: (*verifapd.Context).RoundToIntegralValue, rtie: (*verifapd.Context).RoundToIntegralExact,
 		bdiv: (*verifapd.BigInt).Div, bmod: (*verifapd.BigInt).Mod, bquo: (*verifapd.BigInt).Quo, brem: (*verifapd.BigInt).Rem,
+		bappend: (*verifapd.BigInt).Append, bbitlen: (*verifapd.BigInt).BitLen,
 	}
 }
 
@@ -184,6 +195,7 @@ func verifModelOps() verifOps {
 		ceil: verifApdCtxCeil, floor: verifApdCtxFloor,
 		rtiv: verifApdCtxRoundToIntegralValue, rtie: verifApdCtxRoundToIntegralExact,
 		bdiv: verifApdBigDiv, bmod: verifApdBigMod, bquo: verifApdBigQuo, brem: verifApdBigRem,
+		bappend: verifApdBigAppend, bbitlen: verifApdBigBitLen,
 	}
 }
 
